@@ -77,7 +77,7 @@ def Config.parse (r : RawCfg) : Config where
   mode := r.mode.getD .withLoaderTs5
   defaultExportForOperation := r.defaultExportForOperation.getD true
   operationResultType := r.operationResultType.getD false
-  variablesType := r.variablesType.getD true
+  variablesType := r.variablesType.getD false
   capitalizeOperationNames := r.capitalizeOperationNames
   queryVariableSuffix := r.queryVariableSuffix
   mutationVariableSuffix := r.mutationVariableSuffix
